@@ -224,3 +224,28 @@ func WaitUntil(pred func() bool) {
 		time.Sleep(time.Millisecond)
 	}
 }
+
+// JSONDocs is a stream of JSON documents given by their key/value pairs, as the
+// bytes a hook would write.  malformedAt >= 0 puts an undecodable fragment in
+// front of that document.  Under the symbolic engine the result is an opaque
+// carrier: json.NewDecoder(bytes.NewReader(b)).Decode(&target) sets exactly the
+// fields the next document mentions and leaves the others as they are (the
+// behaviour of encoding/json); byte-level syntax is outside the engine's claims.
+func JSONDocs(malformedAt int, docs ...map[string]any) []byte {
+	var b []byte
+	for i, d := range docs {
+		if i == malformedAt {
+			b = append(b, []byte("{\"operation\": \n")...)
+		}
+		j, err := json.Marshal(d)
+		if err != nil {
+			panic(InvalidReplay{"document cannot be encoded: " + err.Error()})
+		}
+		b = append(b, j...)
+		b = append(b, '\n')
+	}
+	if malformedAt >= len(docs) {
+		b = append(b, []byte("{\"operation\": \n")...)
+	}
+	return b
+}
